@@ -38,7 +38,7 @@ ITEMS = [
                ('snapshot', 'map.order_ok(), it_3.snapshot@.remaining().len() == map.key_order().len(), forall|i: int| 0 <= i < map.key_order().len() ==> *(#[trigger] it_3.snapshot@.remaining()[i]) == map@[map.key_order()[i]]'),
                ('acc', 'forall|u: EntityUID| uids@.contains(u) <==> exists|i: int| 0 <= i < it_3.index@ && in_lits(map@[#[trigger] map.key_order()[i]], u)')]),
        }),
-    Fn(RES, 'impl Residual > fn can_error_assuming_well_formed', wrap='impl Residual', attrs=NODEC, props=['C14'],
+    Fn(RES, 'impl Residual > fn can_error_assuming_well_formed', wrap='impl Residual', attrs=NODEC, props=['C14', 'C15'],
        ensures=[('spec', 'r == can_err(*self)')],
        proof_start='broadcast use axiom_btreemap_order_ok;',
        rewrites=[
